@@ -588,20 +588,27 @@ def isConnectOp (e : Engine) (id : Nat) : Bool :=
   | some { packet := .connect _, .. } => true
   | _ => false
 
+/-- `apply_session_present_to_connection`, the session was lost: interrupted retransmissions lose their DUP flag and
+    rejoin the user queue (or fail by policy); the QoS 2 receive state and every packet-id reservation are dropped -/
+def Engine.sessionLostStage (e : Engine) : Engine × Res :=
+  let rq := e.resubQ
+  let e0 := { e with resubQ := [] }
+  let (retained, rejected) := e0.partitionByPolicy rq
+  let ea := retained.foldl (fun en id => en.setDupFlag id false) e0
+  let eb := { ea with userQ := ea.userQ ++ retained }
+  let (ec, r) := eb.failAll rejected "OfflineQueuePolicyFailed"
+  ({ ec with inQos2 := [], allocated := [] }, r)
+
+/-- `apply_session_present_to_connection`, both cases: what waits in the user queue starts afresh (no packet id, no
+    QoS 2 progress); both queues are put in submission order -/
+def Engine.sessionRequeueStage (e1 : Engine) : Engine :=
+  let e2 := e1.userQ.foldl (fun en id => (en.unbind id).clearQos2 id) e1
+  { e2 with resubQ := sortIds e2.resubQ, userQ := sortIds e2.userQ }
+
 /-- `apply_session_present_to_connection` -/
 def Engine.applySessionPresent (e : Engine) (present : Bool) : Engine × Res :=
-  let (e1, r1) : Engine × Res :=
-    if !present then
-      let rq := e.resubQ
-      let e0 := { e with resubQ := [] }
-      let (retained, rejected) := e0.partitionByPolicy rq
-      let ea := retained.foldl (fun en id => en.setDupFlag id false) e0
-      let eb := { ea with userQ := ea.userQ ++ retained }
-      let (ec, r) := eb.failAll rejected "OfflineQueuePolicyFailed"
-      ({ ec with inQos2 := [], allocated := [] }, r)
-    else (e, .ok)
-  let e2 := e1.userQ.foldl (fun en id => (en.unbind id).clearQos2 id) e1
-  let e3 := { e2 with resubQ := sortIds e2.resubQ, userQ := sortIds e2.userQ }
+  let (e1, r1) : Engine × Res := if !present then e.sessionLostStage else (e, .ok)
+  let e3 := e1.sessionRequeueStage
   if !e3.highQ.isEmpty then (e3, .panic "assert_high_priority_queue_empty@apply_session_present")
   else if !e3.pendingPub.isEmpty then (e3, .panic "assert_pending_publish_empty@apply_session_present")
   else if !e3.pendingNonPub.isEmpty then (e3, .panic "assert_pending_non_publish_empty@apply_session_present")
@@ -781,27 +788,30 @@ def Engine.handlePacket (e : Engine) (p : Packet) : Engine × Res :=
   | .auth _ => (e, .err "Unimplemented")
   | _ => (e, .err "ProtocolError")
 
-/-- the `for mut packet in decoded_packets` loop of `handle_network_event_incoming_data` -/
+/-- validation and dispatch of one (alias-resolved) inbound packet; an error halts the engine -/
+def Engine.dispatchPacket (e1 : Engine) (p1 : Packet) : Engine × Res :=
+  match validateInboundInternal p1 with
+  | .error x => ({ e1 with state := .halted }, okOrErr (.error x))
+  | .ok _ =>
+    let (e2, r) := e1.handlePacket p1
+    if !r.isOk then ({ e2 with state := .halted }, r) else (e2, .ok)
+
+/-- one iteration of the `for mut packet in decoded_packets` loop of `handle_network_event_incoming_data`:
+    inbound alias resolution (it happens before validation), then validation and dispatch -/
+def Engine.handleOnePacket (e : Engine) (p : Packet) : Engine × Res :=
+  match p with
+  | .publish pb =>
+    (match e.inRes.resolve pb.topicAlias pb.topic with
+     | some (r', t) => ({ e with inRes := r' } : Engine).dispatchPacket (.publish { pb with topic := t })
+     | none => (e, .err "InvalidInboundTopicAlias"))
+  | other => e.dispatchPacket other
+
+/-- the loop: the first error ends it -/
 def Engine.handlePackets : Engine → List Packet → Engine × Res
   | e, [] => (e, .ok)
   | e, p :: rest =>
-    -- inbound alias resolution happens before validation
-    let resolved : Option (Engine × Packet) :=
-      match p with
-      | .publish pb =>
-        (match e.inRes.resolve pb.topicAlias pb.topic with
-         | some (r', t) => some ({ e with inRes := r' }, .publish { pb with topic := t })
-         | none => none)
-      | other => some (e, other)
-    match resolved with
-    | none => (e, .err "InvalidInboundTopicAlias")
-    | some (e1, p1) =>
-      match validateInboundInternal p1 with
-      | .error x => ({ e1 with state := .halted }, okOrErr (.error x))
-      | .ok _ =>
-        let (e2, r) := e1.handlePacket p1
-        if !r.isOk then ({ e2 with state := .halted }, r)
-        else e2.handlePackets rest
+    let (e1, r) := e.handleOnePacket p
+    if !r.isOk then (e1, r) else e1.handlePackets rest
 
 /-- `handle_network_event_incoming_data` -/
 def Engine.handleData (e : Engine) (data : Bytes) : Engine × Res :=
@@ -856,6 +866,18 @@ def Engine.startAckTimeout (e : Engine) (id : Nat) : Engine :=
   | some t => { e with timeouts := e.timeouts ++ [(id, e.now + t)] }
   | none => e
 
+/-- `on_current_operation_fully_written`, the table a completely written operation waits in next: the pending-ack
+    tables for packets that are acknowledged, the written-but-unflushed list for everything else -/
+def Engine.fileWritten (e : Engine) (id : Nat) (o : Op) : Engine :=
+  match o.packet with
+  | .subscribe s => { e with pendingNonPub := mapInsert e.pendingNonPub s.packetId id }
+  | .unsubscribe s => { e with pendingNonPub := mapInsert e.pendingNonPub s.packetId id }
+  | .publish p =>
+    if p.qos = 0 then { e with pendingWC := e.pendingWC ++ [id] }
+    else { e with pendingPub := mapInsert e.pendingPub p.packetId id }
+  | .disconnect _ => { e with state := .pendingDisconnect, pendingWC := e.pendingWC ++ [id] }
+  | _ => { e with pendingWC := e.pendingWC ++ [id] }
+
 /-- `on_current_operation_fully_written`; `none` = `unwrap()` panic -/
 def Engine.onFullyWritten (e : Engine) : Option Engine :=
   match e.current with
@@ -864,15 +886,7 @@ def Engine.onFullyWritten (e : Engine) : Option Engine :=
     match e.op? id with
     | none => none
     | some o =>
-      let e1 : Engine :=
-        match o.packet with
-        | .subscribe s => { e with pendingNonPub := mapInsert e.pendingNonPub s.packetId id }
-        | .unsubscribe s => { e with pendingNonPub := mapInsert e.pendingNonPub s.packetId id }
-        | .publish p =>
-          if p.qos = 0 then { e with pendingWC := e.pendingWC ++ [id] }
-          else { e with pendingPub := mapInsert e.pendingPub p.packetId id }
-        | .disconnect _ => { e with state := .pendingDisconnect, pendingWC := e.pendingWC ++ [id] }
-        | _ => { e with pendingWC := e.pendingWC ++ [id] }
+      let e1 := e.fileWritten id o
       let e2 := e1.setOp { o with pingBase := some e.now }
       some { (e2.startAckTimeout id) with current := none }
 
@@ -884,6 +898,33 @@ inductive Seat where
   | ret (e : Engine) (r : Res)      -- `return`
   | cont (e : Engine)               -- `continue`
   | encode (e : Engine)             -- fall through to `encoder.encode`
+
+/-- outbound topic-alias resolution for the packet about to be written (only a PUBLISH has one) -/
+def Engine.resolveOutbound (e : Engine) (packet : Packet) : OutResolver × Resolution :=
+  match packet with
+  | .publish pb => e.outRes.resolve pb.topicAlias pb.topic
+  | _ => (e.outRes, {})
+
+/-- last-chance validation rejected the operation being seated: it fails and the loop goes on.  A binding the
+    resolver may have recorded for this packet never reaches the server: all bindings are forgotten. -/
+def Engine.rejectCurrent (e4 : Engine) (id : Nat) (resolution : Resolution) (x : VErr) : Seat :=
+  let e4r := if resolution.alias.isSome then
+      { e4 with outRes := e4.outRes.reset ((e4.settings.map (·.topicAliasMaximum)).getD 0) } else e4
+  let (e5, r5) := { e4r with current := none }.completeFailure id x.name
+  if r5.isOk then .cont e5 else .ret e5 r5
+
+/-- alias resolution, last-chance validation and encoder set-up for the operation just made current -/
+def Engine.prepareCurrent (e3 : Engine) (id : Nat) (o : Op) : Seat :=
+  let packet := o.pubrel.getD o.packet
+  let (res', resolution) := e3.resolveOutbound packet
+  let e4 := { e3 with outRes := res' }
+  match validateOutboundInternal packet e4.settings (e4.cfg.connect.sessionExpiry.getD 0) (some resolution) with
+  | .error .panicNoSettings => .ret e4 (.panic "unwrap_negotiated_settings@validate")
+  | .error x => e4.rejectCurrent id resolution x
+  | .ok _ =>
+    match packetSteps e4.cfg.version resolution packet with
+    | .error x => .ret e4 (encErrRes x)
+    | .ok steps => .encode { e4 with encSteps := steps }
 
 /-- the `if self.current_operation.is_none() { ... }` block of `service_queue_aux` -/
 def Engine.seatCurrent (e : Engine) (all : Bool) : Seat :=
@@ -901,25 +942,13 @@ def Engine.seatCurrent (e : Engine) (all : Bool) : Seat :=
         if !r.isOk then .ret e3 r
         else match e3.op? id with
           | none => .ret e3 (.panic "unwrap_operation@service_queue_aux")
-          | some o =>
-            let packet := o.pubrel.getD o.packet
-            let (res', resolution) : OutResolver × Resolution :=
-              match packet with
-              | .publish pb => e3.outRes.resolve pb.topicAlias pb.topic
-              | _ => (e3.outRes, {})
-            let e4 := { e3 with outRes := res' }
-            match validateOutboundInternal packet e4.settings (e4.cfg.connect.sessionExpiry.getD 0) (some resolution) with
-            | .error .panicNoSettings => .ret e4 (.panic "unwrap_negotiated_settings@validate")
-            | .error x =>
-              -- a binding the resolver may have recorded for this packet never reaches the server: forget all bindings
-              let e4r := if resolution.alias.isSome then
-                  { e4 with outRes := e4.outRes.reset ((e4.settings.map (·.topicAliasMaximum)).getD 0) } else e4
-              let (e5, r5) := { e4r with current := none }.completeFailure id x.name
-              if r5.isOk then .cont e5 else .ret e5 r5
-            | .ok _ =>
-              match packetSteps e4.cfg.version resolution packet with
-              | .error x => .ret e4 (encErrRes x)
-              | .ok steps => .encode { e4 with encSteps := steps }
+          | some o => e3.prepareCurrent id o
+
+/-- `encoder.encode(packet, to_socket)`: the steps of the current operation are written into the free space of the
+    buffer; the flag is the encoder's failure -/
+def Engine.encodeCurrent (e1 : Engine) (cap : Nat) : Engine × Bool :=
+  let res := encodeCall e1.encSteps (cap - e1.outBytes.length)
+  ({ e1 with outBytes := e1.outBytes ++ res.1, encSteps := res.2.1 }, res.2.2)
 
 /-- `service_queue_aux`; `cap` is the capacity of `to_socket`, whose current content is `outBytes`;
     `fuel` bounds the loop (every iteration removes a queued operation or ends the loop) -/
@@ -937,10 +966,9 @@ def Engine.serviceQueueAux (all : Bool) (cap : Nat) : Nat → Engine → Engine 
           if (e1.op? id).isNone then (e1, .panic "unwrap_current_op@service_queue_aux")
           else if cap < 4 then (e1, .panic "encode_target_buffer_too_small")
           else
-            let res := encodeCall e1.encSteps (cap - e1.outBytes.length)
-            let e2 := { e1 with outBytes := e1.outBytes ++ res.1, encSteps := res.2.1 }
-            if res.2.2 then (e2, .err "EncodingFailure")
-            else if res.2.1.isEmpty then
+            let (e2, failed) := e1.encodeCurrent cap
+            if failed then (e2, .err "EncodingFailure")
+            else if e2.encSteps.isEmpty then
               (match e2.onFullyWritten with
                | none => (e2, .panic "unwrap_current_op@on_current_operation_fully_written")
                | some e3 => Engine.serviceQueueAux all cap fuel e3)
